@@ -135,6 +135,24 @@ def fn_body(code, name, rel):
         k += 1
 
 
+def dest_absent_header(before, header):
+    """is `header` an `if` on "nothing was at the destination"?  `if !P.exists()` or `if !v` with `let v = P.exists();`
+    earlier in the function, where P is bound by `let P = xvc_path.to_absolute_path(…)` (the destination in the workspace);
+    anything else (`||`, `&&`, another path) is not recognised and the site counts as `other` (= sends nothing known)"""
+    dests = set(re.findall(r'\blet\s+(\w+)\s*=\s*xvc_path\s*\.\s*to_absolute_path\s*\(', before))
+    m = re.fullmatch(r'if\s*!\s*(\w+)\s*\.\s*exists\s*\(\s*\)', header)
+    if m:
+        return m.group(1) in dests
+    m = re.fullmatch(r'if\s*!\s*(\w+)', header)
+    if not m:
+        return False
+    binds = re.findall(r'\blet\s+(?:mut\s+)?' + m.group(1) + r'\s*=\s*([^;]*);', before)
+    if len(binds) != 1 or re.search(r'\b' + m.group(1) + r'\s*(?:=[^=]|\|=|&=)', before.replace('let ' + m.group(1), '', 1)):
+        return False
+    e = re.fullmatch(r'(\w+)\s*\.\s*exists\s*\(\s*\)', binds[0].strip())
+    return bool(e) and e.group(1) in dests
+
+
 def extract_ignore_sends():
     """every `<ignore sender>.send(…)` of recheck_from_cache: (kind, guard, enclosing block headers, line)"""
     code = strip_comments(open(os.path.join(REPO, COMMON_RS)).read())
@@ -162,7 +180,8 @@ def extract_ignore_sends():
                 hdr_start = i + 1
             elif ch == ';':
                 hdr_start = i + 1
-        guard = 'always' if not stack else 'parentCreated' if stack == PARENT_CREATED else 'other'
+        guard = ('always' if not stack else 'parentCreated' if stack == PARENT_CREATED
+                 else 'destAbsent' if len(stack) == 1 and dest_absent_header(body[:m.start()], stack[0]) else 'other')
         sites.append({'kind': kind, 'guard': guard, 'enclosing': stack, 'argument': arg[:80], 'line': code.count('\n', 0, a + m.start()) + 1})
     if not sites:
         raise RuntimeError(f'translator: no `{pm.group(1)}.send(` in recheck_from_cache ({COMMON_RS})')
